@@ -131,4 +131,14 @@ example : History.WF sampleOps := by
 
 example : sentTags (run (attached 4294967294) sampleOps).2 = [4294967294, 4294967295, 0, 1, 2] := by decide
 
+/-- **try_consume_is_consume.** The non-waiting taker (`TryConsume::try_consume`, used when a dropped
+    transaction rolls back) is the same function as the waiting one's `consume_link_credit`: it takes a
+    credit exactly when there is one, and a failed attempt changes nothing — in particular the
+    delivery-count, so the receiver's next grant is not eaten by a delivery that never happened. -/
+theorem try_consume_is_consume (s : SSt) (n : Nat) : tryConsume s n = consume s n := by
+  unfold tryConsume consume
+  simp [try_consume.cond_if_0, consume_link_credit.cond_if_0, try_consume.assign_delivery_count_0,
+    consume_link_credit.assign_delivery_count_0, try_consume.assign_link_credit_0,
+    consume_link_credit.assign_link_credit_0]
+
 end Amqp.Credit
